@@ -62,6 +62,10 @@ func checkC06(p *load.Program, r *kit.Report) {
 		r.Unknown("LOCKSET", "anchor:TxData", "-", "TxData/txMap fields not found")
 		return
 	}
+	r.Rule("INSERT-ATOMIC", "a fresh entry is stored into a bucket map only in the write-locked critical section whose lookup found no entry for that txid (no read-locked lookup, no release in between)", 2)
+	checkInsertAtomic(p, r, "INSERT-ATOMIC", txsF)
+	r.Rule("DELIVER", "TxManager.sendTx returns only after the tx was put on the processing channel or the caller's interrupt fired (the warning timer only logs)", 1)
+	checkSendTxDelivers(p, r, "DELIVER")
 	funcs := pkgFuncs(p, R)
 	gb := []guardedBy{{Field: received, Mutex: "RWMutex"}, {Field: lastReq, Mutex: "RWMutex"}, {Field: nodeIDs, Mutex: "RWMutex"},
 		{Field: txData("ReceivedFrom"), Mutex: "RWMutex"}, {Field: txsF, Mutex: "RWMutex"}}
